@@ -26,7 +26,7 @@ func (w *c02World) tcTruth(t *c02TC) (bool, string) {
 		return true, "view-zero"
 	}
 	signers := map[uint64]bool{}
-	for _, c := range t.sig.contribs {
+	for _, c := range t.sig.valid {
 		if c.msg.kind == 'V' && c.msg.view == t.view && w.isMember(c.signer) {
 			signers[c.signer] = true
 		}
@@ -41,13 +41,14 @@ func (w *c02World) tcTruth(t *c02TC) (bool, string) {
 }
 
 func (w *c02World) evalTC(st *c02Streams, t *c02TC, mut string, honest bool) {
-	truth, class := w.tcTruth(t)
+	honest = w.honestHere(mut, honest)
 	for vi := range w.vers {
 		for _, cache := range []bool{false, true} {
 			if !w.wantCall(mut, honest, vi, cache) {
 				continue
 			}
 			a := w.auth(vi, cache, false)
+			truth, class := w.tcTruth(t)
 			o := c02Run(func() error { return a.VerifyTimeoutCert(t.obj) })
 			if cache && o == "ok" {
 				if o2 := c02Run(func() error { return a.VerifyTimeoutCert(t.obj) }); o2 != o {
@@ -71,7 +72,11 @@ func (w *c02World) evalTC(st *c02Streams, t *c02TC, mut string, honest bool) {
 				w.v.Count("obs-panic:tc:" + mut)
 				w.v.Note("panic in VerifyTimeoutCert (crash class of C10): " + mut)
 			}
-			w.v.Case(st.tc, fmt.Sprintf("(%s,%s,%s)", w.cfgTerm(false), t.term, c02Obs(o)), meta)
+			if len(w.badPop) > 0 {
+				w.v.Case(st.tcp, fmt.Sprintf("(%s,%s,%s,%s)", w.cfgTerm(false), w.vctxTerm(), t.term, c02Obs(o)), meta)
+			} else {
+				w.v.Case(st.tc, fmt.Sprintf("(%s,%s,%s)", w.cfgTerm(false), t.term, c02Obs(o)), meta)
+			}
 		}
 	}
 }
